@@ -70,6 +70,10 @@ class Collector:
         self.sampled_tuples = 0
         self.sampled_satisfying = 0
         self.entail_sampled = 0
+        self.hull_by_support = 0
+        self.cross_checked = 0
+        self.oracle_mismatch = 0
+        self.mismatch_samples = []
         self.max_arity = 0
 
     def record(self, name, box, params, status, out, fails, facts):
@@ -91,6 +95,14 @@ class Collector:
             self.sampled_satisfying += facts.get("sampled_satisfying", 0)
         if facts.get("entail_sampled"):
             self.entail_sampled += 1
+        if facts.get("hull_by_support"):
+            self.hull_by_support += 1
+        if facts.get("oracles_cross_checked"):
+            self.cross_checked += 1
+        if facts.get("oracle_mismatch"):
+            self.oracle_mismatch += 1
+            if len(self.mismatch_samples) < 3:
+                self.mismatch_samples.append({"name": name, "box": box, "params": list(params)})
         if len(box) > self.max_arity:
             self.max_arity = len(box)
         if facts.get("point_in"):
@@ -122,7 +134,8 @@ class Collector:
             "exceptions": self.exceptions, "max_lines": self.max_lines, "mode": MODE,
             "sampled_calls": self.sampled_calls, "sampled_tuples": self.sampled_tuples,
             "sampled_satisfying": self.sampled_satisfying, "entail_sampled": self.entail_sampled,
-            "max_arity": self.max_arity,
+            "max_arity": self.max_arity, "hull_by_support": self.hull_by_support, "cross_checked": self.cross_checked,
+            "oracle_mismatch": self.oracle_mismatch, "mismatch_samples": self.mismatch_samples,
         }
 
 
